@@ -31,7 +31,8 @@ def _wf_prog(item):
             probs.append(("c11:needs-hi", "text mentions hi but needs_hi is false"))
         if "pkt" in ids and not ins.needs_pkt[0]:
             probs.append(("c11:needs-pkt", "text mentions pkt but needs_pkt is false"))
-        out.append(dict(key=f"prog:{text}", fmt=fmt, verdict="ok", problems=probs, il=c[1] if probs else "", c=text))
+        out.append(dict(key=f"prog:{text}", fmt=fmt, verdict="ok", problems=probs, il=c[1] if probs else "", c=text, time=wf.WF_SECONDS[0]))
+        wf.WF_SECONDS[0] = 0.0
     return out
 
 
@@ -53,6 +54,9 @@ def run(prop, tier, family_programs=()):
         if r["verdict"] != "ok":
             continue
         bodies += 1
+        rep.solver_time += r.get("time", 0) or 0
+        if prop != "C10":
+            rep.count_query("ground-facts-hold" if not [p for p in r["problems"] if p[0].startswith(pfx)] else "ground-fact-violated")
         key = f"{r['key']}@{r['fmt']}"
         mine = [p for p in r["problems"] if p[0].startswith(pfx)]
         inc = [p for p in r["problems"] if p[0] == "inconclusive"]
@@ -83,7 +87,15 @@ def run(prop, tier, family_programs=()):
                     + (f" + {len(progs)} generated programs" if progs else ""),
         evaluations=bodies, distinct_nontrivial=len({r['key'] for r in recs if r['verdict'] == 'ok'}),
         rule="one body per (behaviour part | sub-routine | generated program) x layout; distinct = distinct source texts",
-        exhaustive=True, layouts=list(FMTS), family_programs=len(progs))
+        exhaustive=True, layouts=list(FMTS), family_programs=len(progs),
+        functions_encoded=["the emitted text of Compiler.transform_insn / compile_c_stmt / compile_sub_routine (every il_init_var / il_write / "
+                           "il_exec / emit_* of the Pures, Effects and Hybrids that produced it)", "RZILInstruction.__init__ (metadata flags)",
+                           "SubRoutine.il_init(DEF) / get_parameter_value_types"],
+        bounds=dict(bodies="every accepted corpus part, every sub-routine body, every family program, in both layouts (no sampling)",
+                    sort_variables="one (kind, width) pair of z3 Int variables per subterm; widths unbounded integers",
+                    solver=("one z3 satisfiability query per body over the sort constraints; unsat core names the violated rules" if prop == "C10" else
+                            "the facts of this property are ground (counts and orders over the parsed text): no search is left for the solver; "
+                            "solver_wall_s is the analysis time incl. the shared sort query")))
     rep.samples = [f"{r['key']}@{r['fmt']}" for r in recs[::max(1, len(recs) // 8)]][:10]
     rep.assumptions = ["my front end's model of the emitted C dialect (declaration-with-initialiser statements)",
                        "RzIL typing rules as encoded in vf/wf.py (mirror of rz_il_validate)",
